@@ -66,7 +66,7 @@ func (c gcPointCodec) Write(w *avro.WriteBuf, p unsafe.Pointer) {
 var gcPointType = reflect.TypeOf(GCPoint{})
 
 func (c gcPointCodec) New(r *avro.ReadBuf) unsafe.Pointer { return r.Alloc(gcPointType) }
-func (c gcPointCodec) Omit(p unsafe.Pointer) bool        { return false }
+func (c gcPointCodec) Omit(p unsafe.Pointer) bool         { return false }
 
 func init() {
 	avro.Register(gcPointType, func(s avro.Schema, typ reflect.Type, omit bool) (avro.Codec, error) {
